@@ -2881,13 +2881,17 @@ def transform_compressible(items, constants, labels):
             # labels still shrink while instructions get compressed, so only
             # pc-relative jumps / branches (whose targets just get closer) may
             # be judged on them: any other immediate has to be label-free
+            # (the same goes for the position: items in front may still shrink,
+            # so %offset of anything is off limits for them as well)
             if name in ['c.j', 'c.jal', 'c.beqz', 'c.bnez']:
                 pred_env = env
+                pred_position = position
             else:
                 pred_env = constants
+                pred_position = None
             try:
-                matches = all(pred(item, position, pred_env) for pred in preds)
-            except (AssemblerError, ValueError):
+                matches = all(pred(item, pred_position, pred_env) for pred in preds)
+            except (AssemblerError, ValueError, TypeError):
                 # operand can't be evaluated (yet) or isn't a valid register:
                 # leave the inst alone, it gets reported with its line later
                 matches = False
